@@ -3,7 +3,7 @@
     only converts integers.  Decoding of the flat integer stream into model
     records is done here, in Gallina. *)
 From RP2V Require Import Base.Prelude Base.Time Base.Dec Model.Types Model.Generated Model.Txn Model.Matcher
-  Model.MatchSpec Model.Pipeline Model.Codec.
+  Model.MatchSpec Model.Pipeline Model.Codec Model.Computed.
 Open Scope Z_scope.
 
 Definition b2z (b : bool) : Z := if b then 1 else 0.
@@ -83,3 +83,47 @@ Definition entry_events (a : list Z) : list Z :=
                           | Err e => [err_code e]
                           | Ok evs => 0 :: Z.of_nat (length evs) :: flat_map (fun e => [t_row e; t_class e; b2z (t_is_earning e); t_balance_change e]) evs
                           end).
+
+(** cmd 30 -- ComputedData from the transactions and a given list of fractions (normally the
+    implementation's own, so that this layer is compared in isolation from the matcher):
+    [period; from_day; to_day; allow; exchanges; holders; sched; hist; fractions] *)
+Definition entry_computed (a : list Z) : list Z :=
+  match a with
+  | period :: from_day :: to_day :: allow :: s0 =>
+    match rd_list rd_str s0 with
+    | None => [-1]
+    | Some (exs, s1) =>
+      match rd_list rd_str s1 with
+      | None => [-1]
+      | Some (hos, s2) =>
+        match rd_list rd_sched_entry s2 with
+        | None => [-1]
+        | Some (_, s3) =>
+          match rd_hist s3 with
+          | None => [-1]
+          | Some (h, s4) =>
+            match rd_list rd_frac s4 with
+            | None => [-1]
+            | Some (fs, _) =>
+              match build h with
+              | Err e => [err_code e]
+              | Ok t =>
+                match compute period from_day to_day (allow =? 1) exs hos t fs with
+                | Ok c => enc_computed period c
+                | Err ENegBalance =>
+                  let all := Sorting.sort_by t_us (map TIn (t_ins t) ++ map TIntra (t_intras t) ++ map TOut (t_outs t)) in
+                  match first_negative (allow =? 1) {| bs_acq := []; bs_sent := []; bs_recv := []; bs_final := [] |}
+                                       (take_until (fun x => local_day (t_ts x)) to_day all) with
+                  | Some (ex, ho) => [7; ex; ho]
+                  | None => [7; -1; -1]
+                  end
+                | Err e => [err_code e]
+                end
+              end
+            end
+          end
+        end
+      end
+    end
+  | _ => [-1]
+  end.
